@@ -132,7 +132,7 @@ pub fn exec_raw(q: &mut AnyQ, st: &Step) -> u64 {
                 });
             }
         }
-        Step::IterMut { prog, via, end, rule } => {
+        Step::IterMut { prog, via, end, rule, .. } => {
             fn body<'a, I: Iterator<Item = (&'a mut Key, &'a mut Prio)>>(mut it: I, prog: &[ItOp], rule: &Rule, end: GEnd, back: &mut dyn FnMut(&mut I) -> Option<(&'a mut Key, &'a mut Prio)>) {
                 for op in prog {
                     let r = match op {
@@ -275,6 +275,14 @@ pub fn exec_raw(q: &mut AnyQ, st: &Step) -> u64 {
         Step::CloneSwap => {
             let cl = q.clone();
             *q = cl;
+        }
+        Step::CloneFrom { dst } => {
+            let mut d = construct(kind, Ctor::WithHasher);
+            for (key, pr) in mk(dst) {
+                d.push(key, pr);
+            }
+            d.clone_from_q(q);
+            *q = d;
         }
         Step::Serde { .. } => {
             let s = q.to_json();
@@ -474,6 +482,7 @@ fn fault_op_weights() -> Vec<u32> {
         (Fam::FromIter, 3),
         (Fam::Convert, 3),
         (Fam::CloneSwap, 4),
+        (Fam::CloneFrom, 2),
         (Fam::EqSelf, 2),
         (Fam::Sorted, 2),
         (Fam::SortedEp, 1),
